@@ -2177,6 +2177,10 @@ impl<'t, 'd> Gen<'t, 'd> {
             if !matches!(choice, 0 | 1 | 2) {
                 self.simple_so_far = false;
             }
+            // (only reachable under the hazard) anything but derive / filter after an append
+            if self.after_append && matches!(choice, 0 | 5 | 6 | 7 | 9 | 10) {
+                self.touch("append_free");
+            }
             if choice == 3 && self.in_sub {
                 self.touch("sorted_let");
             }
